@@ -27,9 +27,10 @@ TECHNIQUE = ("runtime monitoring: application-protocol / Deferred / wire recorde
              "_TorSocksProtocol + reference SOCKS5 reply encoder as oracle, evaluated after every delivered chunk; all 256 reply "
              "codes x 4 address types, exhaustive 1-/2-cut segmentations, disconnect at every chunk boundary; icontract "
              "postcondition relaying => empty buffer")
-LEVEL_TEXT = ("Held on the executions observed: tens of thousands (quick) to ~1.5M (thorough) scripted server streams, the "
+LEVEL_TEXT = ("Held on the executions observed: ~60k (quick) to ~1.3M (thorough) scripted server streams, the "
               "oracle evaluated after every chunk. Reply codes 0..255 x address types and domain lengths 1..255 are enumerated "
-              "completely, as are all 1- and 2-cut segmentations (and every boundary disconnect) of the short streams; "
+              "completely, as are all 1- and 2-cut segmentations (and every boundary disconnect) of the short streams "
+              "(thorough: for every one of the 256 codes x 4 address types); "
               "application bytes and longer segmentations are seeded samples - not a proof for unexplored streams.")
 LEVEL_NOTE = ("Trusted: vf.refs.socks5 encoder (self-tested against an independent decoder), the causal server script and "
               "transport double in this module, Twisted's behaviour of dropping a connection whose dataReceived raised and of "
@@ -1032,6 +1033,11 @@ def plan(tier, seed):
                               "disc_bytewise": kind[0] != "ipv6", "timeout_s": 3000})
         specs.append({"mode": "cuts", "kinds": [("ipv4", None), ("domain", 4)], "replies": ok, "reqs": ["CONNECT"],
                       "apps": [16, 40], "pairs_upto": 64, "disc_bytewise": False, "timeout_s": 3000})
+        # every reply code x address type: all 1- and 2-cut segmentations x disconnect at every chunk boundary
+        for k in range(16):
+            specs.append({"mode": "cuts", "kinds": [("ipv4", None), ("ipv6", None), ("domain", 2), ("unknown", None)],
+                          "replies": [(5, code) for code in range(256) if code % 16 == k], "reqs": ["CONNECT"],
+                          "apps": [1], "pairs_upto": 24, "disc_bytewise": False, "timeout_s": 3000})
         for rem in range(4):
             specs.append({"mode": "domains", "mod": 4, "rem": rem, "timeout_s": 3000})
         specs.append({"mode": "method"})
